@@ -241,6 +241,61 @@ func steeredScalars(r *rand.Rand, nRand int) []*big.Int {
 			put(s)
 		}
 	}
+	// round 10: EXACT ties of the rounded quotient - s*g = X*2^384 + 2^383 + d with 0 <= d < g (so that every limb between the rounding
+	// bit and d is zero), and the neighbours on either side: a special case for "exactly one half" can only show here
+	for _, g := range []*big.Int{glvG1, glvG2} {
+		for t := 0; t < 3; t++ {
+			X := randBig(r, pow2(uint(100+12*t)))
+			num := new(big.Int).Add(new(big.Int).Lsh(X, 384), pow2(383))
+			k := new(big.Int).Div(new(big.Int).Add(num, add(g, -1)), g) // ceil
+			for _, d := range []int64{-1, 0, 1} {
+				if v := add(k, d); v.Sign() > 0 && v.Cmp(bigN) < 0 {
+					put(v)
+				}
+			}
+		}
+	}
+	// round 10: scalars built from CHOSEN halves k1 + k2*lambda: both halves with the same number of leading zero bytes and leading
+	// bytes that add up to 256 (a byte-wise "both zero" test on the sum wraps), or one half shorter than the other
+	for _, z := range []int{0, 1, 2, 5, 8, 11, 14} {
+		for _, ab := range [][2]byte{{0x80, 0x80}, {0x7f, 0x81}, {0x01, 0xff}, {0xff, 0x01}, {0x40, 0xc0}, {0x00, 0x9a}, {0x9a, 0x00}} {
+			mk := func(lead byte) *big.Int {
+				b := make([]byte, 16)
+				for i := z; i < 16; i++ {
+					b[i] = byte(r.Intn(256))
+				}
+				b[z] = lead
+				if z == 0 && lead >= 0x80 {
+					b[z] = lead >> 1 // keep the half inside the cell
+				}
+				return new(big.Int).SetBytes(b)
+			}
+			k1, k2 := mk(ab[0]), mk(ab[1])
+			for _, sg := range [][2]int64{{1, 1}, {1, -1}, {-1, 1}} {
+				put(new(big.Int).Add(new(big.Int).Mul(big.NewInt(sg[0]), k1), new(big.Int).Mul(new(big.Int).Mul(big.NewInt(sg[1]), k2), lam)))
+			}
+		}
+	}
+	// round 10: limbs that a digit recoding fills up - adding the per-digit bias of a signed-window recoding (0x80 per byte, 8 per nibble,
+	// 0x10 per 5-bit digit ...) to such a limb gives all ones, so that a carry coming in from below has to ripple through it
+	for _, bias := range []uint64{0x8080808080808080, 0x8888888888888888, 0x0842108421084210, 0x8000000000000000, 0x0101010101010101} {
+		full := ^bias
+		for hiLimb := 1; hiLimb < 4; hiLimb++ {
+			for _, below := range []uint64{full + 1, full + 2, ^uint64(0), full, full - 1} {
+				var l [4]uint64
+				for i := range l {
+					l[i] = r.Uint64()
+				}
+				l[3] >>= 2
+				l[hiLimb] = full
+				l[hiLimb-1] = below
+				if hiLimb == 3 {
+					l[3] = full >> 1 // stay below n
+				}
+				put(limbsToBig(l))
+			}
+		}
+	}
 	for i := 0; i < nRand; i++ {
 		put(randBig(r, bigN))
 	}
@@ -655,6 +710,39 @@ func wideFoldInputs(r *rand.Rand) [][]byte {
 				emit(hi, new(big.Int).Add(new(big.Int).Sub(new(big.Int).Sub(tgt, l2), h2c), d))
 			}
 			emit(hi, new(big.Int).Add(new(big.Int).Sub(new(big.Int).Sub(new(big.Int).Sub(big2_256, new(big.Int).Lsh(cc, 1)), l2), h2c), d))
+		}
+	}
+	return out
+}
+
+// collinearPartners returns the points Q != P of the curve with a*x(Q) + b*y(Q) = a*x(P) + b*y(P) for (a, b) in {(1, 1), (1, -1)}: the other
+// intersections of the curve with the lines x + y = c and x - y = c through P (round 10).  A point comparison that folds the two
+// coordinate tests into one test of a linear combination takes them for P.  The curve equation restricted to the line is a cubic in x
+// whose roots add up to 1; with x(P) known the other two are the roots of a quadratic.  Untrusted: the specification decides.
+func collinearPartners(px, py *big.Int) [][2]*big.Int {
+	var out [][2]*big.Int
+	if px.Sign() == 0 {
+		return out
+	}
+	for _, sgn := range []int64{1, -1} {
+		// line: y = sgn * (c - x) with c = x + sgn*y ... (c - x)^2 = x^3 + 7  =>  x^3 - x^2 + 2c x + 7 - c^2 = 0
+		c := new(big.Int).Mod(new(big.Int).Add(px, new(big.Int).Mul(big.NewInt(sgn), py)), bigP)
+		sum := new(big.Int).Mod(new(big.Int).Sub(big.NewInt(1), px), bigP)
+		prod := new(big.Int).Mod(new(big.Int).Sub(new(big.Int).Mul(c, c), big.NewInt(7)), bigP)
+		prod.Mul(prod, new(big.Int).ModInverse(px, bigP)).Mod(prod, bigP)
+		disc := new(big.Int).Mod(new(big.Int).Sub(new(big.Int).Mul(sum, sum), new(big.Int).Lsh(prod, 2)), bigP)
+		rt := new(big.Int).ModSqrt(disc, bigP)
+		if rt == nil {
+			continue
+		}
+		inv2 := new(big.Int).ModInverse(big.NewInt(2), bigP)
+		for _, sr := range []*big.Int{rt, new(big.Int).Neg(rt)} {
+			x := new(big.Int).Mod(new(big.Int).Mul(new(big.Int).Add(sum, sr), inv2), bigP)
+			y := new(big.Int).Mod(new(big.Int).Mul(big.NewInt(sgn), new(big.Int).Sub(c, x)), bigP)
+			if x.Cmp(px) == 0 && y.Cmp(py) == 0 {
+				continue
+			}
+			out = append(out, [2]*big.Int{x, y})
 		}
 	}
 	return out
